@@ -5,7 +5,8 @@ const K256: [u32; 64] = [
 0x27b70a85,0x2e1b2138,0x4d2c6dfc,0x53380d13,0x650a7354,0x766a0abb,0x81c2c92e,0x92722c85,0xa2bfe8a1,0xa81a664b,0xc24b8b70,0xc76c51a3,0xd192e819,0xd6990624,0xf40e3585,0x106aa070,
 0x19a4c116,0x1e376c08,0x2748774c,0x34b0bcb5,0x391c0cb3,0x4ed8aa4a,0x5b9cca4f,0x682e6ff3,0x748f82ee,0x78a5636f,0x84c87814,0x8cc70208,0x90befffa,0xa4506ceb,0xbef9a3f7,0xc67178f2];
 
-pub fn sha256(msg: &[u8]) -> [u8; 32] {
+pub fn sha256(msg: &[u8]) -> [u8; 32] { let o = sha256_raw(msg); crate::trace::rec("sha256", 300, || (crate::trace::h(msg), crate::trace::h(&o))); o }
+fn sha256_raw(msg: &[u8]) -> [u8; 32] {
     let mut h: [u32; 8] = [0x6a09e667,0xbb67ae85,0x3c6ef372,0xa54ff53a,0x510e527f,0x9b05688c,0x1f83d9ab,0x5be0cd19];
     let mut m = msg.to_vec(); m.push(0x80);
     while m.len() % 64 != 56 { m.push(0); }
@@ -47,7 +48,8 @@ const K512: [u64; 80] = [
 0xca273eceea26619c,0xd186b8c721c0c207,0xeada7dd6cde0eb1e,0xf57d4f7fee6ed178,0x06f067aa72176fba,0x0a637dc5a2c898a6,0x113f9804bef90dae,0x1b710b35131c471b,
 0x28db77f523047d84,0x32caab7b40c72493,0x3c9ebe0a15c9bebc,0x431d67c49c100d4c,0x4cc5d4becb3e42b6,0x597f299cfc657e2a,0x5fcb6fab3ad6faec,0x6c44198c4a475817];
 
-pub fn sha512(msg: &[u8]) -> [u8; 64] {
+pub fn sha512(msg: &[u8]) -> [u8; 64] { let o = sha512_raw(msg); crate::trace::rec("sha512", 300, || (crate::trace::h(msg), crate::trace::h(&o))); o }
+fn sha512_raw(msg: &[u8]) -> [u8; 64] {
     let mut h: [u64; 8] = [0x6a09e667f3bcc908,0xbb67ae8584caa73b,0x3c6ef372fe94f82b,0xa54ff53a5f1d36f1,0x510e527fade682d1,0x9b05688c2b3e6c1f,0x1f83d9abfb41bd6b,0x5be0cd19137e2179];
     let mut m = msg.to_vec(); m.push(0x80);
     while m.len() % 128 != 112 { m.push(0); }
@@ -85,8 +87,8 @@ fn hmac_generic(block: usize, hash: &dyn Fn(&[u8]) -> Vec<u8>, key: &[u8], msg: 
     let mut outer: Vec<u8> = k.iter().map(|b| b ^ 0x5c).collect(); outer.extend_from_slice(&ih);
     hash(&outer)
 }
-pub fn hmac_sha256(key: &[u8], msg: &[u8]) -> [u8; 32] { hmac_generic(64, &|m| sha256(m).to_vec(), key, msg).try_into().unwrap() }
-pub fn hmac_sha512(key: &[u8], msg: &[u8]) -> [u8; 64] { hmac_generic(128, &|m| sha512(m).to_vec(), key, msg).try_into().unwrap() }
+pub fn hmac_sha256(key: &[u8], msg: &[u8]) -> [u8; 32] { let o: [u8; 32] = hmac_generic(64, &|m| sha256_raw(m).to_vec(), key, msg).try_into().unwrap(); crate::trace::rec("hmac_sha256", 300, || (format!("[{},{}]", crate::trace::h(key), crate::trace::h(msg)), crate::trace::h(&o))); o }
+pub fn hmac_sha512(key: &[u8], msg: &[u8]) -> [u8; 64] { let o: [u8; 64] = hmac_generic(128, &|m| sha512_raw(m).to_vec(), key, msg).try_into().unwrap(); crate::trace::rec("hmac_sha512", 300, || (format!("[{},{}]", crate::trace::h(key), crate::trace::h(msg)), crate::trace::h(&o))); o }
 
 /// PBKDF2-HMAC-SHA512, single 64-byte block (dkLen = 64).
 pub fn pbkdf2_sha512_64(password: &[u8], salt: &[u8], rounds: u32) -> [u8; 64] {
@@ -112,7 +114,8 @@ fn keccak_f(st: &mut [u64; 25]) {
         st[0] ^= RC[round];
     }
 }
-pub fn keccak256(msg: &[u8]) -> [u8; 32] {
+pub fn keccak256(msg: &[u8]) -> [u8; 32] { let o = keccak256_raw(msg); crate::trace::rec("keccak256", 600, || (crate::trace::h(msg), crate::trace::h(&o))); o }
+fn keccak256_raw(msg: &[u8]) -> [u8; 32] {
     const RATE: usize = 136;
     let mut st = [0u64; 25];
     let mut m = msg.to_vec(); m.push(0x01);
